@@ -13,6 +13,7 @@ MIXES = [
     ["oneway_unsendable", "ok", "unsendable_arg", "ok"],
     ["big", "badresult", "boom", "oneway", "late", "result_violation"],
     ["mixed_dict", "ok"],
+    ["obj_tuple_short", "ok", "obj_bytes_short", "obj_list_short", "typed_ok"],   # whole-object result checks
 ]
 
 
@@ -67,6 +68,7 @@ def run_(ctx):
     from harness import c03_impl as impl
     traces = []          # (key, ops, obs, replay)
     corpus(ctx, impl, traces)
+    edge_streams(ctx, impl, traces)
     wire_sweep(ctx, impl, traces)
     api_sequences(ctx, impl, traces)
     tub_level(ctx, impl)
@@ -135,7 +137,7 @@ def one(ctx, impl, traces, tag, cfg, counter=[0]):
     if any(it[0] == "data" for it in r["joint"]) and not (cfg.get("loss") == "garbage-then-lost" and 0 < cfg["cutB"] < r["totalB"]):
         # (garbage in the middle of a token is completed by the garbage: what the unslicers below the answer make of that
         # is outside the concrete oracle of the correspondence)
-        JOINT.append((r["joint"], r["tasters"], r["max_index"], r["vocab"], cfg))
+        JOINT.append((r["joint"], r["tasters"], r["max_index"], r["vocab"], cfg, r["registries"]))
     return r
 
 
@@ -188,6 +190,33 @@ def flat(s):
         out += list(f) + [-2]
     out += [-1, 1 if disc else 0] + list(evq) + [-1, raised]
     return tuple(out)
+
+
+def edge_streams(ctx, impl, traces):
+    """handcrafted answer streams that reach the rare clauses of the receive path; direct oracle (exactly once after the loss,
+    nothing escapes dataReceived) and always part of the byte correspondence"""
+    for name in sorted(impl.EDGE_STREAMS):
+        for chunk in ([10 ** 9, 1] if ctx.tier != "thorough" else [10 ** 9, 1, 2, 3, 5]):
+            cfg = dict(edge_stream=name, chunk=chunk, cutA=10 ** 9, cutB=10 ** 9)
+            impl.RECORD_JOINT = True
+            try:
+                with impl.quiet():
+                    r = impl.edge_scenario(name, chunk)
+            except Exception as e:
+                import traceback
+                ctx.fail("oracle/exception-escaped", "an exception escaped dataReceived/connectionLost on the handcrafted stream %r: %r"
+                         % (cfg, e), replay=dict(cfg=cfg, bytes=bytes(impl.EDGE_STREAMS[name]).hex(), tb=traceback.format_exc()))
+                continue
+            bad = impl.judge(r)
+            if bad:
+                ctx.fail("oracle/" + bad[0], "%s; handcrafted answer stream %r = %s" % (bad[1], cfg, bytes(impl.EDGE_STREAMS[name]).hex()),
+                         replay=dict(cfg=cfg, bytes=bytes(impl.EDGE_STREAMS[name]).hex(), fires=r["fires"]))
+            if r["errors"]:
+                ctx.fail("harness/recorder", "recorder inconsistency: %r on %r" % (r["errors"][:3], cfg), replay=dict(cfg=cfg), has_input=False)
+            ctx.case(["edge", name, chunk], nontrivial=True)
+            ctx.hist("edge_stream", name)
+            add_trace(traces, r["trace"], cfg)
+            JOINT.append((r["joint"], r["tasters"], r["max_index"], r["vocab"], cfg, r["registries"]))
 
 
 def corpus(ctx, impl, traces):
@@ -571,7 +600,8 @@ Fixpoint jcheck (s : rstate (actx coracle)) (js : list item) (obs : list (Z * li
   end.
 Definition copyable := [99; 111; 112; 121; 97; 98; 108; 101].
 Definition go (tasters : list (option taster)) (maxidx maxcop : Z) (voc : list (Z * list Z)) (js : list item) (obs : list (Z * list int * Z)) : Z :=
-  jcheck (jinit coracle {| co_tasters := tasters; co_max_index := maxidx; co_copyable := copyable; co_max_copyable := maxcop; co_second := false |} voc) js obs [] 0.
+  jcheck (jinit coracle {| co_tasters := tasters; co_max_index := maxidx; co_copyable := copyable; co_max_copyable := maxcop; co_second := false;
+                           co_known := known_opentypes; co_copyables := known_copyables |} voc) js obs [] 0.
 """
 
 
@@ -590,6 +620,9 @@ def coq_taster(t):
     return "(Some %s)" % coq_list(["(%d, %s)" % (ty, "None" if lim is None else "(Some %d)" % lim) for ty, lim in t])
 
 
+REGS = [([], [])]
+
+
 def correspond_bytes(ctx):
     """the byte-level receive model (lib/AnswerRecv.v) against the real Broker: the caller's history with every dataReceived
     as one item (the bytes), the operations that happen OUTSIDE dataReceived as they were recorded; what the bytes do to the
@@ -601,17 +634,19 @@ def correspond_bytes(ctx):
     limit = ctx.n(250, 4000)
     rows = JOINT
     if len(rows) > limit:
-        keep = [r for r in rows if r[4].get("cutA", 0) >= 10 ** 9 and r[4].get("cutB", 0) >= 10 ** 9][:limit // 4]
+        edges = [r for r in rows if "edge_stream" in r[4]]
+        keep = edges + [r for r in rows if "edge_stream" not in r[4] and r[4].get("cutA", 0) >= 10 ** 9 and r[4].get("cutB", 0) >= 10 ** 9][:limit // 4]
         rest = [r for r in rows if not any(r is k for k in keep)]
         rows = keep + ctx.rng.sample(rest, limit - len(keep))
     seen = set()
     rows_all = []
-    for joint, tasters, (maxidx, maxcop), vocab, cfg in rows:
+    for joint, tasters, (maxidx, maxcop), vocab, cfg, regs in rows:
         key = (tuple((it[0], it[1]) for it in joint), json.dumps(tasters))
         if key in seen:
             continue
         seen.add(key)
         rows_all.append((joint, tasters, maxidx, maxcop, vocab, cfg))
+        REGS[0] = regs
     ctx.extra["byte_correspondence_histories_available"] = total
     ctx.extra["byte_correspondence_histories"] = len(rows_all)
     ctx.extra["byte_correspondence_bytes"] = sum(len(it[1]) for r in rows_all for it in r[0] if it[0] == "data")
@@ -690,7 +725,11 @@ def correspond_bytes(ctx):
             lines.append("Eval vm_compute in go %s %d %d %s %s %s." % (coq_list([coq_taster(t) for t in tasters]), maxidx, maxcop, voc,
                                                                       coq_list(js), coq_list(obs)))
         try:
-            vals = ctx.coq_eval("C03_bytes_%d" % (si // shard), BODY_BYTES + "\n".join(lines) + "\n", requires=REQ_BYTES)
+            regs = ("Definition known_opentypes : list (list Z) := %s.\nDefinition known_copyables : list (list Z) := %s.\n"
+                    % (coq_list([coq_list([str(b) for b in k]) for k in REGS[0][0]]),
+                       coq_list([coq_list([str(b) for b in k]) for k in REGS[0][1]])))
+            body = BODY_BYTES.replace("Definition copyable :=", regs + "Definition copyable :=")
+            vals = ctx.coq_eval("C03_bytes_%d" % (si // shard), body + "\n".join(lines) + "\n", requires=REQ_BYTES)
         except common.CoqEvalError as e:
             ctx.fail("correspondence-broken", "the byte-level model could not be evaluated: " + str(e)[-1500:], has_input=False)
             return
